@@ -38,6 +38,7 @@ def handle (line : String) : String :=
   | "fullparse" :: rest => Drv.fullParseLine rest
   | "fullparser" :: rest => Drv.fullParseRLine rest
   | "fullrender" :: rest => Drv.fullRenderLine rest
+  | "parseinline" :: rest => Drv.parseInlineLine rest
   | "unescape" :: rest => Drv.unescapeLine rest
   | "inline" :: rest => Drv.inlineLine rest
   | "inlinex" :: rest => Drv.inlineXLine rest
